@@ -421,3 +421,369 @@ Proof.
   - exists 0, false. split; [reflexivity|]. split; [|discriminate].
     intros _ q Hq [HM _]. exact (enf_min_bytes_false b k0 m Em q Hq HM).
 Qed.
+
+(* ---------- bytes that are not continuation bytes start a rune ---------- *)
+
+Lemma enf_decode_rune_cont b0 t i :
+  (1 <= i < snd (decode_rune (b0 :: t)))%nat -> is_cont (nth i (b0 :: t) 0) = true.
+Proof.
+  unfold decode_rune, invalid1.
+  destruct t as [|b1 [|b2 [|b3 t]]]; repeat break_if; cbn [snd]; intros Hi; try lia;
+    repeat match goal with H : _ && _ = true |- _ => apply andb_true_iff in H; destruct H end;
+    destruct i as [|[|[|[|i]]]]; try lia; cbn [nth]; assumption.
+Qed.
+
+Lemma enf_noncont_boundary : forall t i,
+  (i < length t)%nat -> is_cont (nth i t 0) = false ->
+  exists k, (k < length (decode t))%nat /\ i = boundary t k.
+Proof.
+  induction t as [|b t IH] using decode_ind; intros i Hi Hc; [cbn in Hi; lia|].
+  set (w := snd (decode_rune (b :: t))) in *.
+  pose proof (decode_rune_width b t) as [Hw Hl]. fold w in Hw, Hl.
+  rewrite decode_unfold. fold w. cbn [length].
+  destruct (Nat.eq_dec i 0) as [->|Hi0].
+  - exists 0%nat. rewrite boundary_0. split; lia.
+  - destruct (Nat.lt_ge_cases i w) as [L|G].
+    + rewrite (enf_decode_rune_cont b t i) in Hc by (fold w; lia). discriminate Hc.
+    + destruct (IH (i - w)%nat) as [k [Hk Hb]].
+      * rewrite skipn_length. lia.
+      * rewrite enf_nth_skipn. replace (w + (i - w))%nat with i by lia. exact Hc.
+      * exists (S k). rewrite boundary_S. fold w. split; lia.
+Qed.
+
+Lemma enf_decode_nth t k : (k < length (decode t))%nat ->
+  nth_error (decode t) k = Some (decode_rune (skipn (boundary t k) t)).
+Proof.
+  intros Hk. destruct (nth_error (decode t) k) as [[c w]|] eqn:E.
+  - destruct (enb_boundary_step t k c w E) as (_ & _ & Hr & _). rewrite Hr. reflexivity.
+  - apply nth_error_None in E. lia.
+Qed.
+
+Lemma enf_skipn_cons {A} (l : list A) (d : A) i : (i < length l)%nat -> skipn i l = nth i l d :: skipn (S i) l.
+Proof. intros H. apply enb_skipn_nth. apply nth_error_nth'. exact H. Qed.
+
+(* an ASCII byte is a rune of its own *)
+Lemma enf_ascii_byte_rune t i :
+  (i < length t)%nat -> 0 <= nth i t 0 < 128 ->
+  exists k, (k < length (decode t))%nat /\ i = boundary t k /\ nth_error (runes_of t) k = Some (nth i t 0).
+Proof.
+  intros Hi Hx. destruct (enf_noncont_boundary t i Hi) as [k [Hk Hb]]; [unfold is_cont; lia|].
+  exists k. split; [exact Hk|]. split; [exact Hb|].
+  apply enb_rune_nth. exists 1%nat. rewrite (enf_decode_nth t k Hk), <- Hb.
+  rewrite (enf_skipn_cons t 0 i Hi). f_equal. unfold decode_rune. repeat break_if; try lia; reflexivity.
+Qed.
+
+Lemma enf_encode_ascii x : 0 <= x <= 127 -> encode x = [x].
+Proof. intros H. unfold encode. repeat break_if; try lia; reflexivity. Qed.
+
+Lemma enf_zmem_In x l : zmem x l = true <-> In x l.
+Proof.
+  unfold zmem. rewrite existsb_exists. split.
+  - intros [y [Hin Hy]]. replace x with y by lia. exact Hin.
+  - intros Hin. exists x. split; [exact Hin|lia].
+Qed.
+
+Lemma enf_runes_ascii l : enf_ascii l -> runes_of l = l.
+Proof.
+  unfold runes_of. induction l as [|x l IH]; intros H; [reflexivity|].
+  apply Forall_cons_iff in H. destruct H as [Hx H].
+  rewrite decode_unfold.
+  assert (E : decode_rune (x :: l) = (x, 1%nat)) by (unfold decode_rune; repeat break_if; try lia; reflexivity).
+  rewrite E. cbn [snd skipn map fst]. f_equal. apply IH. exact H.
+Qed.
+
+(* a rune-level hit of an ASCII rune is a byte-level hit at its boundary, and conversely *)
+Lemma enf_rune_byte t k c :
+  nth_error (runes_of t) k = Some c -> 0 <= c <= 127 ->
+  (boundary t k < length t)%nat /\ nth (boundary t k) t 0 = c.
+Proof.
+  intros Hn Hc. apply enb_rune_nth in Hn. destruct Hn as [w Hn].
+  assert (Hne : c <> rune_error) by (unfold rune_error; lia).
+  destruct (enb_rune_bytes t k c w Hn Hne) as (_ & _ & Hb). rewrite (enf_encode_ascii c Hc) in Hb.
+  assert (L : (boundary t k < length t)%nat).
+  { destruct (Nat.lt_ge_cases (boundary t k) (length t)) as [|G]; [assumption|].
+    rewrite skipn_all2 in Hb by lia. discriminate Hb. }
+  split; [exact L|]. rewrite (enf_skipn_cons t 0 _ L) in Hb. cbn [app] in Hb. congruence.
+Qed.
+
+Lemma enf_index_any_ascii t chars :
+  enf_ascii chars -> enf_first (enf_byte_occ (fun x => zmem x chars) t) (en_index_any t chars).
+Proof.
+  intros HA. unfold en_index_any. destruct chars as [|c0 chars'] eqn:Ec.
+  - left. split; [reflexivity|]. intros k [_ H]. discriminate H.
+  - rewrite <- Ec in *. clear Ec c0 chars'. rewrite (enf_runes_ascii chars HA). unfold go_range.
+    assert (Hmem : forall x, zmem x chars = true -> 0 <= x <= 127).
+    { intros x Hx. apply enf_zmem_In in Hx. unfold enf_ascii in HA. rewrite Forall_forall in HA.
+      specialize (HA x Hx). lia. }
+    destruct (enb_range_find_spec (fun c => zmem c chars) (decode t) 0) as [[H1 H2]|(k & c & w & H1 & H2 & H3 & H4)].
+    + left. split; [exact H1|]. intros i [Hi Hx].
+      destruct (enf_ascii_byte_rune t i Hi) as (k & Hk & _ & Hn); [specialize (Hmem _ Hx); lia|].
+      apply enb_rune_nth in Hn. destruct Hn as [w Hn]. rewrite (H2 k _ w Hn) in Hx. discriminate Hx.
+    + right. exists (boundary t k). rewrite H3, enb_off_boundary. split; [lia|].
+      assert (Hn : nth_error (runes_of t) k = Some c) by (apply enb_rune_nth; eauto).
+      destruct (enf_rune_byte t k c Hn (Hmem c H2)) as [L Hb].
+      split; [split; [exact L|rewrite Hb; exact H2]|].
+      intros i Hi [Hil Hx].
+      destruct (enf_ascii_byte_rune t i Hil) as (k' & Hk' & Hbi & Hn'); [specialize (Hmem _ Hx); lia|].
+      apply enb_rune_nth in Hn'. destruct Hn' as [w' Hn'].
+      assert (Hkk : (k' < k)%nat).
+      { destruct (Nat.lt_ge_cases k' k) as [|G]; [assumption|].
+        pose proof (enb_boundary_mono t k k' G). lia. }
+      rewrite (H4 k' _ w' Hkk Hn') in Hx. discriminate Hx.
+Qed.
+
+(* ---------- the ASCII string-set filter ---------- *)
+
+Lemma enf_iota_In x n : In x (iota n) <-> 0 <= x < Z.of_nat n.
+Proof.
+  unfold iota. rewrite in_map_iff. split.
+  - intros [k [<- Hk]]. apply in_seq in Hk. lia.
+  - intros H. exists (Z.to_nat x). split; [lia|]. apply in_seq. lia.
+Qed.
+
+Lemma enf_first_chars_mem Ps x :
+  zmem x (en_first_chars Ps) = true <-> (0 <= x < 256 /\ exists P, In P Ps /\ en_first_byte P = x).
+Proof.
+  rewrite enf_zmem_In. unfold en_first_chars. rewrite filter_In, enf_iota_In, existsb_exists.
+  change (Z.of_nat 256) with 256. split.
+  - intros [H1 [P [Hin HP]]]. split; [exact H1|]. exists P. split; [exact Hin|lia].
+  - intros [H1 [P [Hin HP]]]. split; [exact H1|]. exists P. split; [exact Hin|lia].
+Qed.
+
+Lemma enf_bucket_hit_iff input i bucket :
+  en_bucket_hit input i bucket = true <->
+  exists P, In P bucket /\ zlen P <= zlen input - i /\ en_has_prefix (en_from input i) P = true.
+Proof.
+  induction bucket as [|P ps IH]; cbn [en_bucket_hit].
+  - split; [discriminate|]. intros [P [[] _]].
+  - destruct ((zlen P <=? zlen input - i) && en_has_prefix (en_from input i) P) eqn:E.
+    + split; [|reflexivity]. intros _. apply andb_true_iff in E. exists P. split; [left; reflexivity|].
+      destruct E as [E1 E2]. split; [lia|exact E2].
+    + rewrite IH. split.
+      * intros [P' [Hin H]]. exists P'. split; [right; exact Hin|exact H].
+      * intros [P' [[<-|Hin] [H1 H2]]]; [|exists P'; auto].
+        rewrite H2 in E. replace (zlen P <=? zlen input - i) with true in E by lia. discriminate E.
+Qed.
+
+Definition enf_any_occ (Ps : list (list Z)) (b : list Z) (i : nat) : Prop := exists P, In P Ps /\ enb_occ b P i.
+
+Lemma enf_any_occ_first_byte Ps b i :
+  Forall (fun P => enf_ascii P /\ P <> []) Ps -> enf_any_occ Ps b i ->
+  (i < length b)%nat /\ zmem (nth i b 0) (en_first_chars Ps) = true /\
+  en_bucket_hit b (Z.of_nat i) (en_bucket Ps (nth i b 0)) = true.
+Proof.
+  intros Hok [P [Hin Ho]]. rewrite Forall_forall in Hok. destruct (Hok P Hin) as [HA Hne].
+  unfold enb_occ in Ho. destruct P as [|p P']; [congruence|].
+  apply enb_has_prefix_iff in Ho. destruct Ho as [rest Ho].
+  assert (L : (i < length b)%nat).
+  { destruct (Nat.lt_ge_cases i (length b)) as [|G]; [assumption|]. rewrite skipn_all2 in Ho by lia. discriminate Ho. }
+  assert (Hb : nth i b 0 = p).
+  { rewrite (enf_skipn_cons b 0 i L) in Ho. cbn [app] in Ho. congruence. }
+  unfold enf_ascii in HA. apply Forall_cons_iff in HA. destruct HA as [Hp _].
+  split; [exact L|]. split.
+  - apply enf_first_chars_mem. split; [lia|]. exists (p :: P'). split; [exact Hin|]. rewrite Hb. reflexivity.
+  - apply enf_bucket_hit_iff. exists (p :: P'). split.
+    + unfold en_bucket. apply filter_In. split; [exact Hin|]. rewrite Hb. unfold en_first_byte, en_at. cbn. lia.
+    + rewrite enb_from_nat. split.
+      * pose proof (f_equal (@length Z) Ho) as Hl. rewrite skipn_length, app_length in Hl.
+        unfold zlen. lia.
+      * apply enb_has_prefix_iff. eauto.
+Qed.
+
+Lemma enf_first_chars_ascii Ps :
+  Forall (fun P => enf_ascii P /\ P <> []) Ps -> enf_ascii (en_first_chars Ps).
+Proof.
+  intros Hok. unfold enf_ascii. apply Forall_forall. intros x Hx. apply enf_zmem_In in Hx.
+  apply enf_first_chars_mem in Hx. destruct Hx as [_ [P [Hin HP]]].
+  rewrite Forall_forall in Hok. destruct (Hok P Hin) as [HA Hne].
+  destruct P as [|p P']; [congruence|]. unfold en_first_byte, en_at in HP. cbn in HP. subst x.
+  unfold enf_ascii in HA. apply Forall_cons_iff in HA. tauto.
+Qed.
+
+Lemma enf_ascii_set_loop_spec Ps b :
+  Forall (fun P => enf_ascii P /\ P <> []) Ps ->
+  forall fuel sa, (sa <= length b)%nat -> (length b + 1 <= fuel + sa)%nat ->
+  exists c ok, en_ascii_set_loop fuel Ps b (Z.of_nat sa) = Ok (c, ok) /\
+    (ok = false -> forall i, (sa <= i)%nat -> ~ enf_any_occ Ps b i) /\
+    (ok = true -> forall i, (sa <= i)%nat -> enf_any_occ Ps b i -> c <= Z.of_nat i).
+Proof.
+  intros Hok. induction fuel as [|f IH]; intros sa Hsa Hf; [lia|].
+  cbn [en_ascii_set_loop]. unfold zlen.
+  destruct (Z.of_nat sa <? Z.of_nat (length b)) eqn:E.
+  - rewrite enb_from_nat.
+    pose proof (enf_index_any_ascii (skipn sa b) (en_first_chars Ps) (enf_first_chars_ascii Ps Hok)) as F.
+    set (offset := en_index_any (skipn sa b) (en_first_chars Ps)) in *.
+    (* an occurrence at i >= sa shows up as a first-chars byte at offset i - sa *)
+    assert (Hocc : forall i, (sa <= i)%nat -> enf_any_occ Ps b i ->
+              enf_byte_occ (fun x => zmem x (en_first_chars Ps)) (skipn sa b) (i - sa) /\
+              en_bucket_hit b (Z.of_nat i) (en_bucket Ps (nth i b 0)) = true).
+    { intros i Hi Ho. destruct (enf_any_occ_first_byte Ps b i Hok Ho) as (L & H1 & H2).
+      split; [|exact H2]. unfold enf_byte_occ. rewrite skipn_length, enf_nth_skipn.
+      replace (sa + (i - sa))%nat with i by lia. split; [lia|exact H1]. }
+    destruct (offset <? 0) eqn:E2.
+    + exists 0, false. split; [reflexivity|]. split; [|discriminate].
+      intros _ i Hi Ho. destruct (Hocc i Hi Ho) as [H1 _]. exact (enf_first_neg _ _ F ltac:(lia) _ H1).
+    + destruct F as [[F1 _]|[o [F1 [[F2 F2'] F3]]]]; [lia|].
+      rewrite F1. replace (Z.of_nat sa + Z.of_nat o) with (Z.of_nat (sa + o)) by lia.
+      rewrite enb_at_nat.
+      assert (Hge : forall i, (sa <= i)%nat -> enf_any_occ Ps b i -> (sa + o <= i)%nat).
+      { intros i Hi Ho. destruct (Hocc i Hi Ho) as [H1 _].
+        destruct (Nat.le_gt_cases (sa + o) i) as [|G]; [assumption|].
+        exfalso. apply (F3 (i - sa)%nat); [lia|exact H1]. }
+      destruct (en_bucket_hit b (Z.of_nat (sa + o)) (en_bucket Ps (nth (sa + o) b 0))) eqn:E3.
+      * exists (Z.of_nat (sa + o)), true. split; [reflexivity|]. split; [discriminate|].
+        intros _ i Hi Ho. specialize (Hge i Hi Ho). lia.
+      * rewrite skipn_length in F2.
+        replace (Z.of_nat (sa + o) + 1) with (Z.of_nat (S (sa + o))) by lia.
+        destruct (IH (S (sa + o)) ltac:(lia) ltac:(lia)) as (c & ok & Hr & HB & HC).
+        exists c, ok. split; [exact Hr|]. split.
+        -- intros Hk i Hi Ho. pose proof (Hge i Hi Ho) as G.
+           destruct (Nat.eq_dec i (sa + o)) as [->|]; [|apply (HB Hk i); [lia|exact Ho]].
+           destruct (Hocc _ Hi Ho) as [_ H2]. congruence.
+        -- intros Hk i Hi Ho. pose proof (Hge i Hi Ho) as G.
+           destruct (Nat.eq_dec i (sa + o)) as [->|]; [|apply (HC Hk i); [lia|exact Ho]].
+           destruct (Hocc _ Hi Ho) as [_ H2]. congruence.
+  - exists 0, false. split; [reflexivity|]. split; [|discriminate].
+    intros _ i Hi Ho. destruct (enf_any_occ_first_byte Ps b i Hok Ho) as (L & _). lia.
+Qed.
+
+Lemma enf_spec_ascii_set Ps m : enf_ok (FAsciiSet Ps m) -> enf_spec (FAsciiSet Ps m).
+Proof.
+  intros Hok b k0 Hk0. cbn [enf_ok] in Hok. cbn [en_run_filter].
+  destruct (en_has_min_bytes b (Z.of_nat (boundary b k0)) m) eqn:Em; cbn [negb].
+  - pose proof (boundary_le b k0) as Hle.
+    destruct (enf_ascii_set_loop_spec Ps b Hok (S (length b)) (boundary b k0) Hle ltac:(lia)) as (c & ok & Hr & HB & HC).
+    exists c, ok. split; [exact Hr|].
+    assert (Hocc : forall q, (k0 <= q <= length (decode b))%nat -> enf_fact (FAsciiSet Ps m) (runes_of b) q ->
+                     enf_any_occ Ps b (boundary b q)).
+    { intros q Hq [_ [P [Hin HF]]]. exists P. split; [exact Hin|]. unfold enb_occ.
+      apply enf_lit_bytes; [|exact HF]. rewrite Forall_forall in Hok. destruct (Hok P Hin) as [HA _].
+      (* an ASCII string contains no U+FFFD *)
+      unfold enb_no_fffd, en_contains_rune, en_index_rune.
+      replace ((0 <=? rune_error) && (rune_error <? 128)) with false by reflexivity.
+      rewrite Z.eqb_refl. unfold go_range.
+      destruct (enb_range_find_spec (fun c => c =? rune_error) (decode P) 0) as [[H1 _]|(k & c1 & w & H1 & H2 & _)].
+      - rewrite H1. reflexivity.
+      - exfalso. assert (Hn : nth_error (runes_of P) k = Some c1) by (apply enb_rune_nth; eauto).
+        rewrite (enf_runes_ascii P HA) in Hn. apply nth_error_In in Hn.
+        unfold enf_ascii in HA. rewrite Forall_forall in HA. specialize (HA c1 Hn). unfold rune_error in H2. lia. }
+    split.
+    + intros Hk q Hq HF. apply (HB Hk (boundary b q)); [apply enb_boundary_mono; lia|exact (Hocc q Hq HF)].
+    + intros Hk q Hq HF. apply (HC Hk (boundary b q)); [apply enb_boundary_mono; lia|exact (Hocc q Hq HF)].
+  - exists 0, false. split; [reflexivity|]. split; [|discriminate].
+    intros _ q Hq [HM _]. exact (enf_min_bytes_false b k0 m Em q Hq HM).
+Qed.
+
+(* ---------- stringLiteralAfterLoopFilter ---------- *)
+
+Lemma enf_ascii_no_fffd P : enf_ascii P -> enb_no_fffd P.
+Proof.
+  intros HA. unfold enb_no_fffd, en_contains_rune, en_index_rune.
+  replace ((0 <=? rune_error) && (rune_error <? 128)) with false by reflexivity.
+  rewrite Z.eqb_refl. unfold go_range.
+  destruct (enb_range_find_spec (fun c => c =? rune_error) (decode P) 0) as [[H1 _]|(k & c1 & w & H1 & H2 & _)].
+  - rewrite H1. reflexivity.
+  - exfalso. assert (Hn : nth_error (runes_of P) k = Some c1) by (apply enb_rune_nth; eauto).
+    rewrite (enf_runes_ascii P HA) in Hn. apply nth_error_In in Hn.
+    unfold enf_ascii in HA. rewrite Forall_forall in HA. specialize (HA c1 Hn). unfold rune_error in H2. lia.
+Qed.
+
+Lemma enf_nth_error_skipn {A} (l : list A) a k : nth_error (skipn a l) k = nth_error l (a + k).
+Proof.
+  revert l. induction a as [|a IH]; intros l; [reflexivity|].
+  destruct l as [|x l]; [destruct k; reflexivity|]. cbn [skipn Nat.add nth_error]. apply IH.
+Qed.
+
+Lemma enf_str_fact_in_range ci P r j : P <> [] -> enf_str_fact ci P r j -> (j < length r)%nat.
+Proof.
+  intros Hne HF. destruct (Nat.lt_ge_cases j (length r)) as [|G]; [assumption|]. exfalso.
+  unfold enf_str_fact, enf_ci_fact, enf_lit_fact in HF. rewrite skipn_all2 in HF by lia. destruct ci.
+  - destruct P; [congruence|discriminate HF].
+  - destruct HF as [rest HF]. cbn in HF. destruct P; [congruence|discriminate HF].
+Qed.
+
+Lemma enf_runes_encode_string rs : runes_of (encode_string rs) = map sanitize rs.
+Proof. unfold runes_of. rewrite decode_encode_string, map_map. reflexivity. Qed.
+
+Lemma enf_lal_found b k0 l j :
+  (k0 <= j)%nat -> enf_str_ok (la_string_ci l) (la_string l) -> enf_lal_at l (runes_of b) j ->
+  en_has_literal_after_loop b (Z.of_nat (boundary b k0)) l = Ok true.
+Proof.
+  intros Hj Hok HA. unfold en_has_literal_after_loop, enf_lal_at in *. rewrite enb_from_nat.
+  set (t := skipn (boundary b k0) b).
+  pose proof (enb_boundary_mono b k0 j Hj) as Hmono.
+  destruct (la_string l) as [|s0 S'] eqn:ES.
+  - destruct (la_chars l) as [|c0 C'] eqn:EC.
+    + (* a single rune *)
+      assert (Hv : valid_rune (la_char l) = true).
+      { pose proof (enb_runes_valid b) as F. rewrite Forall_forall in F. apply F. eapply nth_error_In. exact HA. }
+      unfold en_contains_rune, en_index_rune. f_equal.
+      destruct ((0 <=? la_char l) && (la_char l <? 128)) eqn:E1.
+      * destruct (enf_rune_byte b j _ HA ltac:(lia)) as [L Hb].
+        pose proof (enf_index_byte_first t (la_char l)) as F.
+        assert (Ho : enf_byte_occ (fun x => x =? la_char l) t (boundary b j - boundary b k0)).
+        { unfold enf_byte_occ, t. rewrite skipn_length, enf_nth_skipn.
+          replace (boundary b k0 + (boundary b j - boundary b k0))%nat with (boundary b j) by lia. split; lia. }
+        pose proof (enf_first_le _ _ _ F Ho). lia.
+      * destruct (la_char l =? rune_error) eqn:E2.
+        -- unfold go_range, t. rewrite decode_skipn_boundary.
+           apply enb_rune_nth in HA. destruct HA as [w HA].
+           destruct (enb_range_find_spec (fun c => c =? rune_error) (skipn k0 (decode b)) 0) as [[_ H2]|(k & c & w' & _ & _ & H3 & _)].
+           ++ specialize (H2 (j - k0)%nat (la_char l) w). rewrite enf_nth_error_skipn in H2.
+              replace (k0 + (j - k0))%nat with j in H2 by lia. specialize (H2 HA). cbn in H2. lia.
+           ++ rewrite H3. lia.
+        -- rewrite Hv. cbn [negb].
+           apply enb_rune_nth in HA. destruct HA as [w HA].
+           destruct (enb_rune_bytes b j _ w HA ltac:(lia)) as (_ & _ & Hb).
+           pose proof (enf_index_first t (encode (la_char l))) as F.
+           assert (Ho : enb_occ t (encode (la_char l)) (boundary b j - boundary b k0)).
+           { unfold enb_occ, t. rewrite enf_skipn_boundary by exact Hj. rewrite Hb. apply enb_has_prefix_app. }
+           pose proof (enf_first_le _ _ _ F Ho). lia.
+    + (* one of a few runes *)
+      destruct HA as [c [Hn Hin]]. unfold en_contains_any, en_index_any. f_equal.
+      destruct (encode_string (c0 :: C')) as [|e0 E'] eqn:Ee.
+      { exfalso. unfold encode_string in Ee. cbn [flat_map] in Ee. apply app_eq_nil in Ee.
+        exact (enb_encode_nonempty c0 (proj1 Ee)). }
+      rewrite <- Ee, enf_runes_encode_string. unfold go_range, t. rewrite decode_skipn_boundary.
+      assert (Hv : valid_rune c = true).
+      { pose proof (enb_runes_valid b) as F. rewrite Forall_forall in F. apply F. eapply nth_error_In. exact Hn. }
+      apply enb_rune_nth in Hn. destruct Hn as [w Hn].
+      destruct (enb_range_find_spec (fun x => zmem x (map sanitize (c0 :: C'))) (skipn k0 (decode b)) 0)
+        as [[_ H2]|(k & c' & w' & _ & _ & H3 & _)].
+      * specialize (H2 (j - k0)%nat c w). rewrite enf_nth_error_skipn in H2.
+        replace (k0 + (j - k0))%nat with j in H2 by lia. specialize (H2 Hn).
+        assert (Hm : zmem c (map sanitize (c0 :: C')) = true).
+        { apply enf_zmem_In. apply in_map_iff. exists c. split; [|exact Hin]. unfold sanitize. rewrite Hv. reflexivity. }
+        congruence.
+      * rewrite H3. lia.
+  - (* a string *)
+    assert (Hne : s0 :: S' <> []) by discriminate.
+    pose proof (enf_str_occ_of_fact (la_string_ci l) b k0 j (s0 :: S') Hj Hok HA) as Ho. fold t in Ho.
+    unfold enf_str_occ in Ho. destruct (la_string_ci l).
+    + destruct (enf_index_ci_first t (s0 :: S')) as [jx [Hjx F]]. rewrite Hjx. cbn [bind]. f_equal.
+      pose proof (enf_first_le _ _ _ F Ho). lia.
+    + unfold en_contains. f_equal. pose proof (enf_first_le _ _ _ (enf_index_first t (s0 :: S')) Ho). lia.
+Qed.
+
+Lemma enf_lal_total b sa l : exists h, en_has_literal_after_loop b sa l = Ok h.
+Proof.
+  unfold en_has_literal_after_loop. destruct (la_string l) as [|s0 S'].
+  - destruct (la_chars l); eauto.
+  - destruct (la_string_ci l); [|eauto].
+    destruct (enf_index_ci_first (en_from b sa) (s0 :: S')) as [j [Hj _]]. rewrite Hj. cbn [bind]. eauto.
+Qed.
+
+Lemma enf_spec_lit_loop l m : enf_ok (FLitLoop l m) -> enf_spec (FLitLoop l m).
+Proof.
+  intros Hok b k0 Hk0. cbn [enf_ok] in Hok. cbn [en_run_filter].
+  destruct (en_has_min_bytes b (Z.of_nat (boundary b k0)) m) eqn:Em; cbn [negb].
+  - destruct (enf_lal_total b (Z.of_nat (boundary b k0)) l) as [h Hh]. rewrite Hh. cbn [bind].
+    destruct h.
+    + exists (Z.of_nat (boundary b k0)), true. split; [reflexivity|]. split; [discriminate|].
+      intros _ q Hq _. pose proof (enb_boundary_mono b k0 q ltac:(lia)). lia.
+    + exists 0, false. split; [reflexivity|]. split; [|discriminate].
+      intros _ q Hq [_ [j [Hj HA]]].
+      rewrite (enf_lal_found b k0 l j ltac:(lia) Hok HA) in Hh. discriminate Hh.
+  - exists 0, false. split; [reflexivity|]. split; [|discriminate].
+    intros _ q Hq [HM _]. exact (enf_min_bytes_false b k0 m Em q Hq HM).
+Qed.
